@@ -391,7 +391,7 @@ def _standard_check(prop_id, tier, seed, spec):
     else:
         def one(seed_k, sub):
             od = outdir if sub == 0 else outdir + "_s%d" % sub
-            rc2, out2, _ = run_engine(spec["engine"], od, seed_k, tier, spec.get("extra"), timeout=spec.get("engine_timeout", 2400), race=spec.get("race", False))
+            rc2, out2, _ = run_engine(spec["engine"], od, seed_k, tier, spec.get("extra"), timeout=spec.get("engine_timeout", 2400) * (3 if thorough else 1), race=spec.get("race", False))
             if rc2 != 0:
                 return od, None, [], ["engine exit %d: %s" % (rc2, out2[-2500:])], [], 0
             st = json.load(open(os.path.join(od, "stats.json")))
@@ -441,7 +441,7 @@ def _standard_check(prop_id, tier, seed, spec):
             n_extra = spec.get("search_seeds", 2) * (3 if thorough else 1)
             for k in range(1, n_extra + 1):
                 od2 = outdir + "_s%d" % k
-                rc2, out2, _ = run_engine(spec["engine"], od2, seed + 1000 * k, tier, spec.get("extra"), timeout=spec.get("engine_timeout", 2400), race=spec.get("race", False))
+                rc2, out2, _ = run_engine(spec["engine"], od2, seed + 1000 * k, tier, spec.get("extra"), timeout=spec.get("engine_timeout", 2400) * (3 if thorough else 1), race=spec.get("race", False))
                 seeds_run.append(seed + 1000 * k)
                 if rc2 == 0:
                     o2 = [o for o in load_oracle(od2) if o.get("key") not in known_keys]
